@@ -114,6 +114,7 @@ def r_visit(P, R):
         count_refusal(P, R)
         count_compaction(P, R)
         count_scaling(P, R)
+        pick_yields(P, R)
         minterm_bits(P, R)
     if R.prop in ('C18', 'C06'):
         descendants_root(P, R)
@@ -832,7 +833,58 @@ r_mdd_bits.NAME = 'R-ARGS(MDD bit significance)'
 
 
 # ------------------------------------------------------------------- DDDMP
+def header_fields(P, R):
+    """Each header field of the DDDMP parser is set by one grammar action,
+    and every field that `reset()` declares has one."""
+    writers = dict()
+    for f in P.methods('dd.dddmp', 'Parser'):
+        if not f.name.startswith('p_'):
+            continue
+        for s in au.walk_no_defs(f.node):
+            if isinstance(s, ast.Assign):
+                ch = au.chain(s.targets[0])
+                if ch and ch[0] == 'self' and len(ch) == 2:
+                    writers.setdefault(ch[1], []).append(f)
+    if len(writers) < 10:
+        raise AnalysisError(
+            f'R-FORMAT/header-fields: only {len(writers)} header fields '
+            'are set by grammar actions')
+    declared = set()
+    rs = P.func('dd.dddmp.Parser.reset', required=False)
+    if rs is not None:
+        for s in au.walk_no_defs(rs.node):
+            if isinstance(s, ast.Assign) and isinstance(
+                    s.value, ast.Constant) and s.value.value is None:
+                ch = au.chain(s.targets[0])
+                if ch and ch[0] == 'self' and len(ch) == 2:
+                    declared.add(ch[1])
+    bad = False
+    for name, fs in sorted(writers.items()):
+        if len({f.name for f in fs}) > 1:
+            bad = True
+            R.violation(
+                'R-FORMAT', 'header-field-two-writers',
+                'dd.dddmp.Parser', name,
+                f'the header field `{name}` is set by '
+                f'{sorted(f.name for f in fs)}: the value read from one '
+                'line of the file overwrites the value read from another '
+                '(whichever comes later in the file wins)',
+                unit=fs[0].unit.rel, line=fs[1].lineno)
+    # declared header lists that the body relies on but no action sets
+    hdr = P.func('dd.dddmp.Parser._parse_header')
+    used = {au.chain(x)[1] for x in ast.walk(hdr.node)
+            if isinstance(x, ast.Attribute) and au.chain(x)
+            and au.chain(x)[0] == 'self' and len(au.chain(x)) == 2}
+    orphans = sorted((declared & used) - set(writers) - {
+        'bdd', 'info2permid'})
+    if not bad:
+        R.holds('R-FORMAT', 'dd.dddmp.Parser',
+                f'{len(writers)} header fields, each set by one grammar '
+                'action')
+
+
 def r_dddmp(P, R):
+    header_fields(P, R)
     hdr = P.func('dd.dddmp.Parser._parse_header')
     # (1) parallel header lists are zipped as given
     n = 0
@@ -1103,3 +1155,57 @@ def count_scaling(P, R):
     elif not scaled:
         R.undecided('R-VISIT', f.qualname, 'final scaling',
                     'no product of the _sat_len result with a power of 2')
+
+
+def pick_yields(P, R):
+    """Every assignment that pick_iter hands out went through
+    `_enumerate_minterms(cube, care_vars)`, which is what makes it mention
+    every care variable: no `yield` of anything else (a shortcut for a
+    constant, say, would ignore the care set)."""
+    f = P.func('dd.bdd.BDD.pick_iter')
+    fn = f.node
+    prm = [p for p in f.params if p != 'self']
+    care = prm[1] if len(prm) > 1 else None
+    au.set_parents(fn)
+    n = 0
+    for y in au.walk_no_defs(fn):
+        if not isinstance(y, (ast.Yield, ast.YieldFrom)):
+            continue
+        n += 1
+        ok = False
+        v = y.value
+        if isinstance(y, ast.YieldFrom):
+            src = v
+        else:
+            # the loop whose variable is yielded
+            src = None
+            p = getattr(y, '_parent', None)
+            while p is not None and p is not fn:
+                if isinstance(p, ast.For) and isinstance(
+                        v, ast.Name) and v.id in au.target_names(p.target):
+                    src = p.iter
+                    break
+                p = getattr(p, '_parent', None)
+        if isinstance(src, ast.Name):
+            defs = au.assignments_to(fn, src.id)
+            if len(defs) == 1:
+                src = defs[0].value
+        if isinstance(src, ast.Call) and au.call_name(
+                src) == '_enumerate_minterms' and care is not None and any(
+                    au.is_name(a, care) for a in list(src.args) + [
+                        k.value for k in src.keywords]):
+            ok = True
+        if ok:
+            R.holds('R-VISIT', f.qualname,
+                    f'`{au.short(y, 40)}`: produced by '
+                    f'_enumerate_minterms(..., {care})')
+        else:
+            R.violation(
+                'R-VISIT', 'yield-bypasses-care-set', f.qualname,
+                au.short(y, 30),
+                f'`{au.short(y, 50)}` hands out an assignment that did '
+                f'not go through _enumerate_minterms(..., {care}): it '
+                'need not mention the care variables (for a constant '
+                'function with a non-empty care set it mentions none)',
+                unit=f.unit.rel, line=y.lineno)
+    R.floor('R-VISIT yields of pick_iter', n, 1)
